@@ -415,7 +415,7 @@ func (t *tree) parseCallParams() []ast.Node {
 			continue
 		case itemRightDelim:
 			key = firstIdent.val
-			value = t.itemList(itemParamEnd)
+			value = t.paramContent()
 			t.expect(itemRightDelim, "param")
 			params = append(params, &ast.CallParamContentNode{initial.pos, key, value})
 			continue
@@ -438,7 +438,7 @@ func (t *tree) parseCallParams() []ast.Node {
 		var valueStr string
 		if valueStr, ok = attrs["value"]; !ok {
 			t.expect(itemRightDelim, "param")
-			value = t.itemList(itemParamEnd)
+			value = t.paramContent()
 			t.expect(itemRightDelim, "param")
 			params = append(params, &ast.CallParamContentNode{initial.pos, key, value})
 		} else {
@@ -608,6 +608,16 @@ func (t *tree) parseAttrs(allowedNames ...string) map[string]string {
 			t.unexpected(tok, "attributes")
 		}
 	}
+}
+
+// paramContent parses the body of a {param} up to {/param}. It is an ordinary
+// block, also when the {call} stands inside a {msg}.
+func (t *tree) paramContent() *ast.ListNode {
+	var inmsg = t.inmsg
+	t.inmsg = false
+	var content = t.itemList(itemParamEnd)
+	t.inmsg = inmsg
+	return content
 }
 
 // "msg" has just been read.
